@@ -8,7 +8,7 @@ Line-protocol driver for the gcno/gcda model (properties C15 and C08).
   tree    <version> <checksum> <recs|->                         -> ok <0|1 per function> (spanning-tree certificate found)
 
   <recs>  = records joined by ';':  F<ident>,<lsum>,<csum>,<start>,<end>,<hexname>,<hexfile>
-                                     B<n>     A<src>,<dst>:<flags>,…     L<blk>,<line>|f<hexfile>,…    S (buffer ends here)
+                                     B<n>     A<src>,<dst>:<flags>,…     L<blk>,<line>|f<hexfile>,…    S (buffer ends here)   X (more blocks announced than bytes left)
   <gcda>  = D<version>:<checksum>(;f<len>,<ident>,<lsum>,<csum> | ;a<len>,<v>,… | ;o | ;s (buffer ends) | ;r (record shorter than its content))*
 -/
 import GrcovModel.Gcno
@@ -38,6 +38,7 @@ def gcnoParseRec (s : String) : Option NRec :=
       pure (.arcs (← gcnoNat src) as)
     | _ => none
   | ['S'] => some .short
+  | ['X'] => some (.fail .blockCount)
   | 'L' :: rest =>
     match (String.ofList rest).splitOn "," with
     | blk :: items => do
@@ -83,6 +84,7 @@ def gcnoShowErr : ErrKind → String
   | .checksumMismatch => "checksumMismatch" | .headerLen => "headerLen" | .fnIdent => "fnIdent"
   | .fnChecksum => "fnChecksum" | .edgeCount => "edgeCount" | .short => "short"
   | .blockNo => "blockNo" | .recordLen => "recordLen"
+  | .blockCount => "blockCount"
 
 def gcnoShowOutcome {α : Type} (sh : α → String) : Outcome α → String
   | .ok a => let t := sh a; if t.isEmpty then "ok" else "ok " ++ t
